@@ -305,6 +305,24 @@ def main(ctx, replay):
             for t in use:
                 cases.append(make_case(rng, name, vs, sel, t, via, idx))
                 idx += 1
+    # one route's life: many deliveries through ONE deliverer and ONE signing config while the clock moves forwards and backwards
+    # (the version to sign with is a function of the signing instant alone, whatever was delivered before)
+    gi = 0
+    for name, vs, via in sets[:len(fixed_sets()) + 6] + sets[-4:]:
+        pts = sorted(set(clock_points(vs, rng, ctx.tier)))
+        if len(pts) > 12:
+            pts = sorted(rng.sample(pts, 12))
+        for sel in ("newest_valid", "oldest_valid"):
+            for order in (pts, pts[::-1], rng.sample(pts, len(pts))):
+                gi += 1
+                first = make_case(rng, name, vs, sel, order[0], via, idx)
+                for t in order:
+                    c = dict(first)
+                    c["now"] = ts(t)
+                    c["group"] = "g%d" % gi
+                    c["_set"] = name + "+seq"
+                    cases.append(c)
+                    idx += 1
     s = T0 * NS
     # plain secret_ref (no versions), unsigned target, unloadable plain ref, blank headers, bad method/URL
     extra = []
